@@ -39,11 +39,13 @@ private theorem genFrame_nocompress (cfg : Writer.Cfg) (maskNum : UInt32) (op : 
       ∧ (r.2 = none ∨ r.2 = some (.named "ErrTextEncoding") ∨ r.2 = some (.named "ErrMessageTooLarge")) := by
   unfold Trans.Conn_genFrame
   simp only [Bool.false_and, Bool.false_eq_true, if_false, ↓reduceIte]
-  split
-  · exact ⟨_, rfl, Or.inr (Or.inl rfl)⟩
-  · split
-    · exact ⟨_, rfl, Or.inr (Or.inr rfl)⟩
-    · exact ⟨_, rfl, Or.inl rfl⟩
+  -- whatever the nesting of the checks: every leaf returns one of the three outcomes (the compressing branch is gone)
+  repeat' split
+  all_goals first
+    | exact ⟨_, rfl, Or.inl rfl⟩
+    | exact ⟨_, rfl, Or.inr (Or.inl rfl)⟩
+    | exact ⟨_, rfl, Or.inr (Or.inr rfl)⟩
+    | (exfalso; simp_all; done)
 
 private theorem setRsv1_eq (frame : Bytes) : frame.set 0 (goIdx frame 0 ||| 64) = Writer.setRsv1 frame := by
   cases frame <;> rfl
